@@ -4,7 +4,8 @@ From Utp Require Import Base.Prelude Wire.SeqNr Wire.Header Rtt.Rtte Mtu.SegSize
   Tx.Ring Tx.Segments Conn.Recovery Conn.Msg Conn.VSockRec Conn.VSock Conn.VSockRun Conn.VObs
   Conn.C10_Pred Conn.C02_Pred Conn.VSock_Inv Conn.C10_Proofs Conn.C02_Proofs
   Conn.VSock_Lemmas Conn.VSock_LemmasStep Conn.VSock_LemmasReach
-  Conn.VSock_LemmasPark Tx.Segments_ProofsOut Conn.VSock_LemmasTimers Conn.VSock_LemmasPipe.
+  Conn.VSock_LemmasPark Tx.Segments_ProofsOut Conn.VSock_LemmasTimers Conn.VSock_LemmasPipe
+  Conn.VSock_LemmasEof.
 
 Section WithCC.
 Context {CC : Type} (cci : cc_iface CC).
@@ -93,6 +94,52 @@ Proof. intros cfg. apply forallb_ftrace_all. apply c02_shutdown_wakes_step. Qed.
 Theorem c02_read_wakes_trace : forall cfg ops (s : vsock),
   forallb (c02_read_wakes cfg) (ftrace cci s ops) = true.
 Proof. intros cfg. apply forallb_ftrace_all. apply c02_read_wakes_step. Qed.
+
+(* ================================================================== c02_eof_wakes *)
+(* the poll that accepts the peer's in-sequence FIN and leaves the reassembly queue empty has moved
+   the EOF marker to the user queue; a reader that was parked has been woken *)
+Theorem c02_eof_wakes_step : forall cfg (s : vsock) o,
+  pk s -> rxi s -> c02_eof_wakes cfg (fstep_of cci s o) = true.
+Proof.
+  intros cfg s o Hpk Hrx. unfold c02_eof_wakes.
+  destruct (eof_flush_guard (fstep_of cci s o)) eqn:G; [|reflexivity].
+  unfold eof_flush_guard in G.
+  destruct o; try (rewrite fstep_of_event in G; discriminate G).
+  destruct (poll cci (VSockRec.set_sends s script)) as [s' r] eqn:E.
+  rewrite (fstep_of_poll cci s script s' r E) in *.
+  cbn [fs_event fs_result fs_pre fs_post] in *.
+  destruct r; try discriminate G.
+  cbn [fp_of_vsock f_rx_reader_waker f_rx_reader_dropped f_state f_rx_ff f_rx_len] in G.
+  repeat (apply andb_true_iff in G; destruct G as [G ?]).
+  rename H into Glen, H0 into Gff, H1 into Gla, H2 into Gfin, H3 into Gdrop.
+  (* the EOF is in the user queue *)
+  assert (Hh : hh (VSockRec.set_sends s script)).
+  { split; [exact Hrx|]. intro K. change (v_state (VSockRec.set_sends s script)) with (v_state s) in K.
+    apply negb_true_iff in Gfin. destruct (v_state s); discriminate. }
+  apply (poll_hh cci _ _ Hh) in E as Hh'. destruct Hh' as [_ Hq].
+  assert (Hla : isLA (v_state s') = true) by (destruct (v_state s'); try discriminate; reflexivity).
+  specialize (Hq Hla).
+  assert (Hqn : q (v_rx s') <> []) by (destruct Hq as [Hq|Hq]; [lia | exact Hq]).
+  pose proof (poll_reach cci _ _ _ E) as R.
+  assert (Hpk' : pk s') by (eapply pk_reach; [exact R | exact Hpk]).
+  assert (Hrw : reader_waker (v_rx s') = false).
+  { destruct (reader_waker (v_rx s')) eqn:K; [|reflexivity].
+    destruct Hpk' as [[_ Hp] _]. destruct (Hp K) as [Hp1 _]. contradiction. }
+  assert (W : wr (poll_init (VSockRec.set_sends s script))) by (left; exact G).
+  apply (wr_reach _ _ _ _ R) in W. destruct W as [W|W]; [congruence|].
+  unfold woke_reader. apply existsb_exists. exists VwReader. split; [rewrite <- in_rev; exact W | reflexivity].
+Qed.
+
+Theorem c02_eof_wakes_trace : forall cfg mk c (s0 : vsock) ops,
+  0 < vc_rx_buf c -> vsock_new cci mk c = Some s0 ->
+  forallb (c02_eof_wakes cfg) (ftrace cci s0 ops) = true.
+Proof.
+  intros cfg mk c s0 ops Hb H0.
+  apply (ftrace_forallb cci (fun s => pk s /\ rxi s)).
+  - intros s o [H1 H2]. apply c02_eof_wakes_step; assumption.
+  - intros s o [H1 H2]. split; [apply pk_vstep; exact H1 | apply rxi_vstep; exact H2].
+  - split; [eapply pk_vsock_new; exact H0 | eapply rxi_vsock_new; [exact Hb | exact H0]].
+Qed.
 
 (* ================================================================== c02_rto_armed *)
 (* the two disjuncts of [outstanding] *)
